@@ -92,6 +92,8 @@ class Schema:
                         if k.arg == "default":
                             f.default = k.value
                 m.fields[nm] = f
+            elif isinstance(st, ast.Assign) and isinstance(st.value, ast.Call) and isinstance(st.value.func, ast.Name):
+                self._factory_member(m, st)
             elif isinstance(st, ast.FunctionDef):
                 for d in st.decorator_list:
                     if isinstance(d, ast.Call):
@@ -107,6 +109,57 @@ class Schema:
                             m.serializers.append((names, m.ci.methods[st.name], d))
                         elif dn == "model_validator":
                             m.model_validators.append((m.ci.methods[st.name], d))
+
+    def _factory_member(self, m: Model, st: ast.Assign):
+        """`name = factory(args...)` in a model body where the module-level factory returns
+        field_validator(*fields, mode=..)(classmethod(inner)) / field_serializer(*fields)(inner): the member is
+        the inner function, decorated for the fields given in the call"""
+        from .loader import FuncInfo
+        fac = self.mod.functions.get(st.value.func.id)
+        if fac is None:
+            return
+        rets = [n for n in fac.node.body if isinstance(n, ast.Return)]
+        if len(rets) != 1 or not isinstance(rets[0].value, ast.Call) or not isinstance(rets[0].value.func, ast.Call):
+            return
+        deco, inner = rets[0].value.func, (rets[0].value.args[0] if rets[0].value.args else None)
+        dn = ast.unparse(deco.func).split(".")[-1]
+        if dn not in ("field_validator", "field_serializer") or inner is None:
+            return
+        if isinstance(inner, ast.Call) and ast.unparse(inner.func) == "classmethod" and inner.args:
+            inner = inner.args[0]
+        if not isinstance(inner, ast.Name):
+            return
+        nested = [n for n in fac.node.body if isinstance(n, ast.FunctionDef) and n.name == inner.id]
+        if len(nested) != 1:
+            return
+        # bind the factory's parameters to the arguments of this call
+        a = fac.node.args
+        params = [p.arg for p in a.posonlyargs + a.args]
+        call = st.value
+        env = {p: call.args[i] for i, p in enumerate(params) if i < len(call.args)}
+        for k in call.keywords:
+            if k.arg:
+                env[k.arg] = k.value
+        star = call.args[len(params):] if a.vararg is not None else []
+        names = []
+        for x in deco.args:
+            if isinstance(x, ast.Constant):
+                names.append(x.value)
+            elif isinstance(x, ast.Starred) and isinstance(x.value, ast.Name) and a.vararg is not None and \
+                    x.value.id == a.vararg.arg:
+                names += [y.value for y in star if isinstance(y, ast.Constant)]
+            elif isinstance(x, ast.Name) and x.id in env and isinstance(env[x.id], ast.Constant):
+                names.append(env[x.id].value)
+        fi = FuncInfo(nested[0], self.mod, f"{fac.qualname}.<locals>.{nested[0].name}", parent=fac)
+        fi.factory_env = env                      # captured variables of the inner function, as AST of this call
+        if dn == "field_validator":
+            mode = "after"
+            for k in deco.keywords:
+                if k.arg == "mode" and isinstance(k.value, ast.Constant):
+                    mode = k.value.value
+            m.validators.append((names, mode, fi, deco))
+        else:
+            m.serializers.append((names, fi, deco))
 
     def _type(self, f: Field, ann, scope: ClassInfo):
         if isinstance(ann, ast.Constant) and isinstance(ann.value, str):
